@@ -130,7 +130,7 @@ def run(ctx):
         cmetas, clines, ccid = [], [], 720000
         for variant in gen.VARIANTS:
             for j in range(ctx.budget(1, 8)):
-                line, m = cli.make_case(rng.fork('cs%d' % ccid), ccid, wdc, variant=variant)
+                line, m = cli.make_case(rng.fork('cs%d' % ccid), ccid, wdc, variant=variant, const_w=True)
                 clines.append(line)
                 cmetas.append(m)
                 ccid += 1
